@@ -11,7 +11,8 @@ from vf.gen import composite
 
 ID = "C04"
 RULE = ("case = statement list (cpu/segment/org/emit(list|dup)/reserve/phase/end) on Z80, 6502, 68000 "
-        "(PADDING off), 8051 (CODE/DATA/XDATA), PIC16C84 and TMS320C25 (2-byte granules), TMS320C30 (4-byte granules); "
+        "(PADDING off), 8051 (CODE/DATA/XDATA), PIC16C84 and TMS320C25 (2-byte granules), TMS320C30 (4-byte granules), "
+        "ATmega8 (CODE 2-byte, EEDATA 1-byte granules); "
         "line sizes from {1,2,3}, 60-64 and 510..514/1022..1026, runs built up to 65530..65540 bytes; "
         "non-trivial = a run crossing the 512-byte buffer or the 64 KiB record limit, or >= 2 segment/CPU "
         "switches, or a reservation between two emissions, or a backward ORG; distinct by (targets, boundary "
@@ -42,6 +43,9 @@ T = {
     "320c25": dict(cpu="320c25", hid=0x75, segs={"code": (1, 2, 16, 0x10000), "data": (2, 2, 16, 0x10000)},
                    lst="word", dup=None, res="bss"),
 }
+# segments of different granularity in one target: AVR (CODE in 16-bit words, EEDATA in bytes)
+T["atmega8"] = dict(cpu="atmega8", hid=0x3b, segs={"code": (1, 2, 16, 0x1000), "eedata": (10, 1, 8, 0x200)},
+                    lst="data", dup=None, res="res")
 BIG_OK = ("z80", "6502", "68000", "320c25", "320c30")
 
 
